@@ -44,7 +44,7 @@ type fsCase struct {
 
 const t0 = 1700000000 // logical clock origin (a realistic unix time; absolute-past TTLs 2592001..t0 exist)
 
-var fsKeys = []string{"a", "bb", "key3", "k-4"}
+var fsKeys = []string{"a", "bb", "key3", "k-4", "r%dt%s%%"}
 
 func cfgGallina(orca string, locked bool) string {
 	k := map[string]string{"l1only": "KL1Only", "l1l2": "KL1L2", "l1l2batch": "KL1L2Batch"}[orca]
